@@ -61,6 +61,17 @@ CLAIMED = {
             '10 delta of a limit point are skipped; the package files are written by the harness, not by sedfitter\'s writers.',
             'deterministic simulation: seeded twin-package worlds x convolver schedules with listing permutation, knobs, crash+rerun; identity + differential oracles',
             'DESIGN.md section 5 (C07)'),
+    'C08': ('exploration',
+            'Whole-pipeline simulated runs with a planted truth: photometry synthesised by the harness\'s own exact integrator / aperture '
+            'interpolation / extinction law from model m at (A_V0, d0 | scale), then convolve -> fit() -> write_parameters executed on real '
+            'code under permuted listings, memmap knob, clock profiles, stream forms, both package formats, both fitting modes, both filter '
+            'storage orders, crash+rerun of the convolve stage and crash/ENOSPC+restart of the fit stage. Oracle: m ranked first, chi^2 within a '
+            'conditioned bound of 0, runner-up above 0.5, A_V and scale within bounds derived from the reference normal matrix, m\'s own '
+            'parameter row printed.',
+            'Degenerate plantings (reference LSQ: another model / grid distance below chi^2 1, singular normal matrix) are discarded and counted; '
+            'numeric slack: delta 1e-13 (per-file), 1e-7 (cube, float32 model store), 3e-7 (cube stored f4).',
+            'deterministic simulation: seeded end-to-end pipeline runs with environment knobs and stage crash/restart faults; planted-truth oracle from an independent reference model',
+            'DESIGN.md section 5 (C08)'),
 }
 
 NOT_APPLICABLE = {
